@@ -343,6 +343,9 @@ impl C04 {
         let mut ext: BTreeMap<u64, Q> = map_q(&st);
         let mut chain_exact = true;
         let mut shadow = st.clone();
+        // magnitudes without cancellation: |x| for given variables, sum |c| prod M for replaced ones; a value
+        // computed in floating point carries an error proportional to this, not to the (possibly cancelled) result
+        let mut mags: BTreeMap<u64, Q> = st.iter().map(|(k, v)| (*k, q(v.abs()))).collect();
         for map in history.iter().rev() {
             let mut add = vec![];
             for (k, r) in map {
@@ -351,15 +354,18 @@ impl C04 {
                     panic!("harness: replacement of {k} mentions a variable without value");
                 };
                 chain_exact &= eval_is_exact(&stored_terms(r), &shadow);
-                add.push((*k, v));
+                let m = abs_stored_poly(r).eval(&mags).expect("magnitudes cover the same ids");
+                add.push((*k, v, m));
             }
-            for (k, v) in add {
+            for (k, v, m) in add {
                 let vf = q_to_f64(&v);
                 chain_exact &= f64_eq_q(vf, &v);
                 shadow.insert(k, vf);
                 ext.insert(k, v);
+                mags.insert(k, m);
             }
         }
+        let st_mags: BTreeMap<u64, Q> = st.iter().map(|(k, v)| (*k, q(v.abs()))).collect();
         let sdk_state = state(st.iter().map(|(k, v)| (*k, *v)));
         mon.eval();
         match probe(|| inst.evaluate(&sdk_state).map_err(|e| format!("{e:#}"))) {
@@ -388,9 +394,12 @@ impl C04 {
                     let ok = if certified {
                         f64_eq_q(got, &expected)
                     } else {
-                        (q(got) - &expected).abs() <= (expected.abs() + qi(1)) * q(1e-9)
+                        // relative to the result, plus the rounding of the terms the SDK actually adds up (the
+                        // substituted function may consist of huge terms that cancel)
+                        let mag = abs_stored_poly(after).eval(&st_mags).unwrap_or_else(|| qi(0));
+                        (q(got) - &expected).abs() <= (expected.abs() + qi(1)) * q(1e-9) + mag * q(1e-12)
                     };
-                    mon.facet(if certified { "instance-value-judged:exact" } else { "instance-value-judged:relative-1e-9" });
+                    mon.facet(if certified { "instance-value-judged:exact" } else { "instance-value-judged:relative-1e-9+1e-12*magnitude" });
                     if !ok {
                         mon.violation(format!("C04.instance-value:{sig}"), format!("{what}: evaluated {got:e}, original at the extended assignment {expected} ({:e})\nstate={st:?}\n{}", q_to_f64(&expected), ctx(&inst)));
                     }
@@ -422,7 +431,7 @@ impl C04 {
                     match rep.get(k) {
                         None => mon.violation("C04.instance-dependent-not-reported", format!("replaced variable {k} is absent from the reported state\nstate={st:?}\n{}", ctx(&inst))),
                         Some(v) => {
-                            let ok = if chain_exact { f64_eq_q(*v, expected) } else { (q(*v) - expected).abs() <= (expected.abs() + qi(1)) * q(1e-9) };
+                            let ok = if chain_exact { f64_eq_q(*v, expected) } else { (q(*v) - expected).abs() <= (expected.abs() + qi(1)) * q(1e-9) + mags.get(k).cloned().unwrap_or_else(|| qi(0)) * q(1e-12) };
                             if !ok {
                                 mon.violation("C04.instance-dependent-value", format!("replaced variable {k} reported as {v:e}; its replacement evaluates to {expected} ({:e})\nstate={st:?}\n{}", q_to_f64(expected), ctx(&inst)));
                             }
